@@ -62,7 +62,8 @@ class C16(Prop):
     RULE = ("shapes: pipeline n in 1..5, loop (0..6 iterations, counter + body job per iteration, pre/post 0..1), scatter (pre 0..1, "
             "width 1..12, depth 1..2, post 0..1), diamond 2..4 branches; data "
             "type file or primitive; 1..4 faulty jobs, each (phase, kind, count 1..3); fail-stop only on jobs that run alone "
-            "(with concurrent siblings the organically failing set depends on I/O timing: C19); limit = max count + 1 + slack, "
+            "(with concurrent siblings the organically failing set depends on I/O timing: C19) and, when a fail-stop fault is present, no "
+            "faults on jobs with concurrent siblings; limit = max count + 1 + slack, "
             "slack in {0,1,2,20}; seeded permuting event loop on half the cases. Non-trivial = at least one fault. Distinct = "
             "distinct canonical JSON.")
     TRUSTED = ("model: Recovery/Model.v (job DAG, store, execution/loss events, canonical rollback) is hand-written",
@@ -109,6 +110,11 @@ class C16(Prop):
                     faults.append([st, tag, ph, kind, rng.choice([1, 1, 2, 3])])
                     if rng.random() < 0.2:   # the same job also fails in another phase
                         faults.append([st, tag, rng.choice([p for p in PHASES if p != ph]), kind, 1])
+            if any(f[3] == "failstop" for f in faults):
+                # a loss makes the recovery re-run the concurrent jobs side by side; if those fail too, several recoveries
+                # overlap and the outcome depends on timing (property C19): keep only the faults of jobs that run alone
+                conc = "/cnt" if shape["kind"] == "loop" else None
+                faults = [f for f in faults if ((f[0], f[1]) in solo if conc is None else f[0] != conc)]
             tot = {}
             for f in faults:
                 tot[(f[0], f[1])] = tot.get((f[0], f[1]), 0) + f[4]
@@ -201,9 +207,14 @@ class C16(Prop):
     def signature(self, c, o, clause):
         kinds = "failstop" if any(f[3] == "failstop" for f in c["faults"]) else ("soft" if c["faults"] else "none")
         jobs = [(f[0], f[1]) for f in c["faults"]]
-        if clause == "outputs-differ" and len(set(jobs)) < len(jobs):
+        if clause == "outputs-differ" and c["shape"]["kind"] == "scatter" and len(set(jobs)) < len(jobs):
             kinds += "+multiphase"   # some job fails in two different phases
-        return f"{clause}/{c['shape']['kind']}/{kinds}/{'tight' if c['slack'] <= 2 else 'slack'}"
+        shape = c["shape"]["kind"]
+        if shape == "loop":   # which side of the loop the fail-stop failures hit
+            reg = sorted({"pre" if f[0].startswith("/a") else "post" if f[0].startswith("/c") else "body"
+                          for f in c["faults"] if f[3] == "failstop"})
+            shape += "-" + "+".join(reg) if reg else ""
+        return f"{clause}/{shape}/{kinds}/{'tight' if c['slack'] <= 2 else 'slack'}"
 
     def shrink(self, c):
         fs = c["faults"]
